@@ -128,6 +128,15 @@ fn run_root_case(
     s.push_str(&cfg_line(&root, emulated, rflags));
     s.push('\n');
 
+    // one-shot opens: only flag sets that openat2 itself accepts are in scope
+    if let Op::OpenSubpath { flags, .. } | Op::Reopen { flags, .. } = op {
+        if let Err(e) = ops::kernel_openat2(root.as_fd(), b".", *flags as u32 as u64, 0) {
+            if e == libc::EINVAL {
+                return;
+            }
+        }
+    }
+
     // independent kernel oracle first (lookups do not change the tree)
     let kern = ops::kernel_line(&root, op, rflags, &labels);
 
